@@ -16,6 +16,7 @@ import (
 
 	ngfAPIv1alpha1 "github.com/nginx/nginx-gateway-fabric/apis/v1alpha1"
 	ngfAPIv1alpha2 "github.com/nginx/nginx-gateway-fabric/apis/v1alpha2"
+	"github.com/nginx/nginx-gateway-fabric/internal/framework/helpers"
 	vu "github.com/nginx/nginx-gateway-fabric/internal/verifutil"
 )
 
@@ -72,6 +73,21 @@ func c07PolDirected(r *vu.Rng, c *vsCluster) []client.Object {
 		}
 		if r.Chance(1, 4) {
 			objs = append(objs, csp(g.NS, fmt.Sprintf("d-cspg%d-b", i), "Gateway", g.Name, r.Bool()))
+		}
+	}
+	// a policy on two Services of one namespace (its ancestor is the Gateway: one entry, not one per Service)
+	byNS := map[string][]string{}
+	for _, sv := range c.Services {
+		byNS[sv.NS] = append(byNS[sv.NS], sv.Name)
+	}
+	for _, ns := range []string{"default", "team-a", "team-b"} {
+		if names := byNS[ns]; len(names) >= 2 && r.Chance(1, 2) {
+			p := &ngfAPIv1alpha1.UpstreamSettingsPolicy{ObjectMeta: metav1.ObjectMeta{Namespace: ns, Name: "d-usp2", Generation: gen()},
+				Spec: ngfAPIv1alpha1.UpstreamSettingsPolicySpec{ZoneSize: helpers.GetPointer(ngfAPIv1alpha1.Size("2m"))}}
+			for _, n := range names[:2] {
+				p.Spec.TargetRefs = append(p.Spec.TargetRefs, v1alpha2.LocalPolicyTargetReference{Group: "", Kind: "Service", Name: gatewayv1.ObjectName(n)})
+			}
+			objs = append(objs, p)
 		}
 	}
 	for i, rt := range c.Routes {
@@ -165,7 +181,21 @@ func TestVerifC07Pol(t *testing.T) {
 			pols = append(pols, o)
 			before[c05Key(o)] = len(c07PolStatusOf(o))
 		}
+		// in a fifth of the cases the Gateways carry spec.addresses, which NGF does not support: the winning Gateway is invalid and
+		// every policy is told that its target is not there - once per ancestor
+		invalidGw := r.Chance(1, 5)
+		if invalidGw {
+			vpObjectsHook = func(objs []client.Object) []client.Object {
+				for _, o := range objs {
+					if g, ok := o.(*gatewayv1.Gateway); ok {
+						g.Spec.Addresses = []gatewayv1.GatewayAddress{{Value: "192.0.2.10"}}
+					}
+				}
+				return objs
+			}
+		}
 		w := vpRunStateWith(c, false, extra, true)
+		vpObjectsHook = nil
 		// a second batch (an unrelated grant) makes the controller write all statuses again: entries must not pile up
 		if r.Bool() {
 			w.Batch([]interface{}{w.Apply(vsGrant{NS: "unrelated", Name: "again", From: []vsGrantFrom{{Group: "gateway.networking.k8s.io", Kind: "HTTPRoute", NS: "nowhere"}},
@@ -207,6 +237,7 @@ func TestVerifC07Pol(t *testing.T) {
 		}
 		out.Case(vu.App("PCase", c.Coq(), vu.List(terms)), map[string]any{"cluster": c, "policies": humans}, nonTrivial && len(pols) >= 3, c.Coq()+vu.List(terms))
 		out.Tally("policies", strconv.Itoa(len(pols)/3*3))
+		out.Tally("invalid_gateway", strconv.FormatBool(invalidGw))
 	}
 	out.Close("C07.PolStatus", "")
 }
